@@ -77,7 +77,7 @@ std::string NodesJSON(const std::vector<mp::pre::NodeRange> &v) {
 namespace mp {
 void RecDumpLinks(pre::BasicValuePresolver &bp) {
   const char *fn = std::getenv("RECSOLVER_LINKS");
-  if (!fn) return;
+  if (!fn || (fn[0] == '1' && fn[1] == 0)) return;   // "1" selects the in-log variant (RecLogFinalLinks)
   auto *impl = dynamic_cast<mp::pre::ValuePresolverImpl *>(&bp);
   FILE *f = std::fopen(fn, "w");
   if (!f) return;
